@@ -11,7 +11,8 @@ def run(tier):
     chk.cov["rule"] = ("TLC enumerates abstract bundles (Valid.tla families); the harness builds each through the API with a CRC on every block, "
                        "records the real serialisation (TLC recomputes every CRC over the independently delimited block bytes) and applies "
                        "every single-bit flip plus seeded bursts <= CRC width at every start bit; every mutant the real parser ACCEPTS is "
-                       "judged by TLC (accepted with a wrong declared CRC = violation). distinct = distinct serialisations judged.")
+                       "judged by TLC (accepted with a wrong declared CRC = violation; an accepted single-bit change, or an accepted burst that "
+                       "leaves the independently found block boundaries where they were = violation). distinct = distinct serialisations judged.")
     fams = ["crc", "payload", "eids", "widths"] if tier == "quick" else ["crc", "payload", "eids", "widths", "blocks", "flags"]
     cases = generate(chk, fams)
     if tier == "quick":
